@@ -144,6 +144,22 @@ func emitC03(c *ctx, p *tak.Position, kind string) {
 }
 
 func runC03(c *ctx) {
+	// a new game from a Config copied out of an existing game of another size (Position.Config() carries the
+	// private fields along)
+	if c.tier != "replay" {
+		for k := 0; k < 12*c.scale; k++ {
+			other := tak.New(tak.Config{Size: 3 + c.r.Intn(6)})
+			cfg := other.Config()
+			cfg.Size = 3 + c.r.Intn(6)
+			cfg.Pieces, cfg.Capstones = 0, 0
+			ps, _ := randomGame(c.r, cfg, 4+c.r.Intn(30), -1, false)
+			for i, p := range ps {
+				if i < 3 || i == len(ps)-1 || c.r.Intn(5) == 0 {
+					emitC03(c, p, "copied-config")
+				}
+			}
+		}
+	}
 	if c.tier == "replay" {
 		if p, err := decodeEnc(readReplay(c).Input); err == nil {
 			emitC03(c, p, "replay")
